@@ -559,3 +559,124 @@ def r3_6(run):
 
 
 RULES = [("R3.1", r3_1), ("R3.2", r3_2), ("R3.3", r3_3), ("R3.4", r3_4), ("R3.5", r3_5), ("R3.6", r3_6)]
+
+
+HOOK_NAMES = ("adaption_before_derivatives_hydraulic", "adaption_after_derivatives_hydraulic",
+              "adaption_before_derivatives_thermal", "adaption_after_derivatives_thermal", "rerun_hydraulics", "rerun_thermal")
+
+
+def _frame(t, params):
+    """coordinate system of a pit array or of a from/to window table: ("full"|"active", "node"|"branch") or None"""
+    while isinstance(t, tuple) and t and t[0] == "upd":      # an array after in-place stores is still that array
+        t = t[1]
+    if not isinstance(t, tuple) or not t:
+        return None
+    if t[0] == "n":
+        return params.get(t[1])
+    if t[0] == "idx" and len(t[2]) == 1 and t[2][0][0] == "c" and t[1][0] == "idx" and len(t[1][2]) == 1 and t[1][2][0][0] == "c":
+        store, which = t[1][2][0][1], t[2][0][1]
+        if store in ("_pit", "_active_pit", "_active_old_pit", "_old_pit") and which in ("node", "branch"):
+            return ("active" if "active" in store else "full", which)
+        if store == "_lookups" and isinstance(which, str):
+            for kind in ("node", "branch"):
+                if which == kind + "_from_to":
+                    return ("full", kind)
+                if which.startswith(kind + "_from_to_active"):
+                    return ("active", kind)
+    if t[0] == "call" and t[1][0] == "f" and t[1][1].endswith(".get_lookup") and len(t[2]) == 3 and t[2][1][0] == "c" and t[2][2][0] == "c":
+        kind, what = t[2][1][1], t[2][2][1]
+        if what == "from_to":
+            return ("full", kind)
+        if isinstance(what, str) and what.startswith("from_to_active"):
+            return ("active", kind)
+    return None
+
+
+def window_sites(ix):
+    """[(function, node, array term, array frame, window table term, window frame)] for every row window `A[W[k][0]:W[k][1]]`
+    whose array and window table both have a known coordinate system; the hook parameters take theirs from the call sites"""
+    from ..arrnf import ANF, key as tkey, walk
+    mods = [m for m in ix.all_modules() if m == "pandapipes.pipeflow" or m.startswith(("pandapipes.pf.", "pandapipes.component_models."))]
+    funcs = [f for f in ix.all_functions() if f.module in mods]
+    runs = {}
+    for f in funcs:
+        try:
+            runs[f] = ANF(ix, f, strip=False).run()
+        except AnalysisError:
+            continue
+
+    def terms(r):
+        for e in r.events:
+            for t in (getattr(e, "term", None), getattr(e, "value", None), getattr(e, "base", None)):
+                if isinstance(t, tuple):
+                    yield e, t
+            for t in (getattr(e, "index", None) or ()):
+                if isinstance(t, tuple):
+                    yield e, t
+            for c, _p in e.cond:
+                if isinstance(c, tuple):
+                    yield e, c
+    hookp, ncalls = {}, 0
+    hook_names = set(HOOK_NAMES) | {m for c in ix.all_classes() if c.name == "Component" for m in c.methods}
+    for f, r in runs.items():
+        for e in r.events:
+            t = getattr(e, "term", None)
+            if e.kind == "call" and t[1][0] == "attr" and t[1][2] in hook_names and t[1][1][0] != "n":
+                fr = tuple(_frame(a, {}) for a in t[2])
+                if not any(fr):
+                    continue        # a hook that passes its own parameters on (super(), a sibling hook)
+                ncalls += 1
+                old = hookp.setdefault(t[1][2], fr)
+                if len(old) != len(fr) or any(a and b and a != b for a, b in zip(old, fr)):
+                    raise AnalysisError("the call sites of %s disagree on the coordinate systems of their arguments" % t[1][2])
+                hookp[t[1][2]] = tuple(a or b for a, b in zip(old, fr))     # None: not known at this site
+    sites = []
+    for f, r in runs.items():
+        params = {}
+        if f.cls is not None and f.name in hookp:
+            names = [a.arg for a in f.node.args.args][1:]
+            params = {n_: fr for n_, fr in zip(names, hookp[f.name]) if fr}
+        seen = set()
+        for e, t in terms(r):
+            for x in walk(t):
+                if not (isinstance(x, tuple) and x and x[0] == "idx" and x[2] and x[2][0][0] == "slice"):
+                    continue
+                lo, hi = x[2][0][1], x[2][0][2]
+                if not (lo[0] == "idx" and hi[0] == "idx" and lo[2] == (("c", 0),) and hi[2] == (("c", 1),) and tkey(lo[1]) == tkey(hi[1])
+                        and lo[1][0] == "idx" and len(lo[1][2]) == 1):
+                    continue
+                w = lo[1][1]
+                fa, fw = _frame(x[1], params), _frame(w, params)
+                k = (tkey(x[1]), tkey(w))
+                if fa is None or fw is None or k in seen:
+                    continue
+                seen.add(k)
+                sites.append((f, e.node, x[1], fa, w, fw))
+    return sites, ncalls, hookp
+
+
+def r3_7(run):
+    """a component finds its rows in a pit through a from/to window, and the window table must be the one of the array it is applied
+    to: the full pit goes with the "from_to" lookup, the reduced (active) pit with "from_to_active_<mode>", and the pit handed to the
+    adaption / rerun hooks with the lookup handed to the same call (pipeflow passes the active pit and the active lookup).  With a
+    window of the other table the rows belong to a different element as soon as anything ahead in the pit is out of service, and the
+    set-point is imposed on the wrong rows."""
+    from ..arrnf import show as tshow
+    ix = run.index
+    sites, ncalls, hookp = window_sites(ix)
+    for name, fr in sorted(hookp.items()):
+        arrs = [x for x in fr if x and x[1] == "branch"]
+        run.ob("%s|call-site-frames-agree" % name, len({x[0] for x in arrs}) == 1 and len(arrs) >= 2,
+               "every caller of %s passes branch pit and branch window table of one coordinate system" % name, "pandapipes/pipeflow.py",
+               detail=str(fr))
+    for f, node, a, fa, w, fw in sites:
+        run.analysed(f)
+        run.ob("%s|%s<-%s|window-of-its-array" % (f.short, tshow(a)[:40], tshow(w)[:48]), fa == fw,
+               "the row window applied to %s (%s %s rows) is read from the %s %s window table" % (tshow(a)[:40], fa[0], fa[1], fw[0], fw[1]),
+               run.where(f, node))
+    run.stat("hook_call_sites", ncalls)
+    run.stat("row_windows_with_known_frames", len(sites))
+    run.floor(12)
+
+
+RULES.append(("R3.7", r3_7))
